@@ -108,6 +108,34 @@ def loopint(kind, x):
     return c
 
 
+def needed(d):
+    """(kind, fermion mass, scalar mass) triples (floats) whose loop integrals amu_1loop(d) may ask for"""
+    out = []
+    for M in (d["mh"], d["mH"], d["mA"]):
+        for g in range(3):
+            out += [("I1", d["ml"][g], M), ("I2", d["ml"][g], M)]
+    for g in range(3):
+        out.append(("J", d["mv"][g], d["mHp"]))
+    out += [("I1", d["ml"][1], d["mhSM"]), ("I2", d["ml"][1], d["mhSM"])]
+    return out
+
+
+def precompute(triples, dps=DPS):
+    """evaluate the integrals for a list of triples; returns [(cache key, value)] to be fed to preload()"""
+    out = []
+    with ff_ref.prec(dps):
+        for kind, mf, M in triples:
+            x = mpf(mf) ** 2 / mpf(M) ** 2          # same expression as in amu_1loop
+            if kind == "I2" and x == 0:
+                continue
+            out.append(((kind, x, mp.dps), loopint(kind, x)))
+    return out
+
+
+def preload(items):
+    _cache.update(items)
+
+
 def amu_1loop(d, dps=DPS, exact_kinematics=False):
     """d: dict with floats mm (= ml[1]), ml[3], mv[3], mh, mH, mA, mHp, mhSM, v and complex 3x3 nested lists
     ylh, ylH, ylA, ylHp.  Returns dict(amu=mpf, sumabs=mpf, parts={...})."""
